@@ -499,6 +499,20 @@ func (m *vMachC15) exec(t *rapid.T, op *vOpC15) {
 		}
 		prefixOK(k + 1)
 		m.st.Evals(1)
+		if o.Key.Type == backend.SnapshotFile && !o.Remove && k+1 < len(log) {
+			// the moment a snapshot file exists it is what a crash leaves behind: everything it
+			// refers to must already be stored AND indexed (check without --read-data: structure only)
+			s := st.StateAt(k + 1)
+			s.DropLocks()
+			ce := r.env.OnStore(s)
+			cout, cerr := ce.Check(false)
+			ce.Release()
+			m.st.Class("snapshot-save-state-checked")
+			m.st.Evals(1)
+			if cerr != nil {
+				t.Fatalf("%s: a crash right after snapshot %s was written (%d of %d backend operations) leaves a repository that check rejects: %v\n%s%s\n%s\nhistory:\n  %s", op.name, o.Key.Name[:8], k+1, len(log), cerr, cout.Stdout, cout.Stderr, vOpsStringC15(log), m.history())
+			}
+		}
 	}
 
 	// --- continue on the complete state or on a crash state
@@ -613,16 +627,27 @@ func (m *vMachC15) actBackup(t *rapid.T) {
 }
 
 func (m *vMachC15) backup(t *rapid.T, r *vRepoC15) {
+	m.backupMode(t, r, "")
+}
+
+func (m *vMachC15) backupMode(t *rapid.T, r *vRepoC15, mode string) {
 	if len(r.models) >= 6 {
 		m.forget(t, r)
 		return
 	}
-	mode := rapid.SampledFrom([]string{"mutate", "mutate", "regen"}).Draw(t, "srcmode")
+	if mode == "" {
+		mode = rapid.SampledFrom([]string{"mutate", "mutate", "regen", "same"}).Draw(t, "srcmode")
+	}
 	if r.cur == nil {
 		mode = "regen"
 	}
 	var tr vTree
-	if mode == "regen" {
+	if mode == "same" {
+		// unchanged source: a second snapshot with the same root tree (a later copy of both finds
+		// nothing new to transfer for the second one)
+		tr = r.cur.Clone()
+		m.st.Class("backup=unchanged-source")
+	} else if mode == "regen" {
 		tr = vGenTree(t, vTreeGen{MaxEntries: 10, ContentPool: vPoolC15, Names: vNamesC15, Symlinks: true})
 		_ = os.RemoveAll(r.src)
 		if err := os.Mkdir(r.src, 0o755); err != nil {
@@ -830,11 +855,48 @@ func (m *vMachC15) actRewrite(t *rapid.T) {
 	m.st.Class(fmt.Sprintf("rewrite_changed=%v", len(op.replaced) > 0 || !forget), fmt.Sprintf("rewrite_forget=%v", forget))
 }
 
-func (m *vMachC15) actCopy(t *rapid.T) {
+// actTwinCopy: a changed and then an unchanged backup of the source repository (two snapshots
+// with one root tree, both new to the destination), then a copy of everything: the second
+// snapshot has nothing left to transfer while the data of the first is still being uploaded.
+func (m *vMachC15) actTwinCopy(t *rapid.T) {
 	dst := m.pickRepo(t)
 	src := m.other(dst)
+	m.backupMode(t, src, "mutate")
+	m.invariant(t)
+	// the twin: rewrite --new-host without --forget keeps the old snapshot and adds one with the
+	// SAME root tree (a second backup of the unchanged source would not: the root tree also holds
+	// the scratch directories above the source, whose timestamps move)
+	if ids := src.snapsBySeq(); len(ids) > 0 && len(src.models) < 6 {
+		newest := ids[len(ids)-1]
+		ro := RewriteOptions{Metadata: snapshotMetadataArgs{Hostname: fmt.Sprintf("twin%d", m.ops)}}
+		op := &vOpC15{name: "rewrite", r: src, desc: fmt.Sprintf("--new-host (twin of %s)", newest[:8])}
+		op.run = func(env *vEnv) (vOut, error) {
+			return env.call(env.gopts, func(ctx context.Context, gopts global.Options) error {
+				return runRewrite(ctx, ro, gopts, []string{newest}, gopts.Term)
+			})
+		}
+		op.derive = func(_ vOut, sn *data.Snapshot) (vSnapC15, bool) {
+			if sn.Original == nil || sn.Original.String() != newest {
+				return vSnapC15{}, false
+			}
+			old := src.models[newest]
+			return vSnapC15{Seq: old.Seq, Src: old.Src, Tree: old.Tree.Clone()}, true
+		}
+		m.exec(t, op)
+		m.invariant(t)
+		m.st.Class("copy=twin-snapshots")
+	}
+	m.copyInto(t, dst, true)
+}
+
+func (m *vMachC15) actCopy(t *rapid.T) {
+	m.copyInto(t, m.pickRepo(t), false)
+}
+
+func (m *vMachC15) copyInto(t *rapid.T, dst *vRepoC15, all bool) {
+	src := m.other(dst)
 	var ids []string
-	if rapid.Bool().Draw(t, "copysome") || len(dst.models) >= 5 {
+	if !all && (rapid.Bool().Draw(t, "copysome") || len(dst.models) >= 5) {
 		ids = src.pickSnaps(t, "copy", 1, 2)
 	}
 	srcSns, err := src.env.Snapshots()
@@ -1104,6 +1166,7 @@ func TestVerifC15Histories(t *testing.T) {
 			"03-rewrite":          withPw(m.actRewrite),
 			"04-forget":           withPw(m.actForget),
 			"05-copy":             withPw(m.actCopy),
+			"05-twin-copy":        withPw(m.actTwinCopy),
 			"06-tag":              withPw(m.actTag),
 			"07-repair-packs":     withPw(m.actRepairPacks),
 			"08-key-passwd":       withPw(m.actKeyPasswd),
